@@ -298,7 +298,7 @@ def has_enclosing_history(path):
         d = p
 
 
-def check_sf(run, cid, key, root, files, args, cwd, times=(1,)):
+def check_sf(run, cid, key, root, files, args, cwd, times=(1,), wc="sf"):
     """files: world-root relative paths named by the -sf options (all in one history); times: accepted multiplicities of
     the expected lines (naming the same file twice may print its lines once or twice)"""
     roots = W.nested_roots(root)
@@ -315,7 +315,7 @@ def check_sf(run, cid, key, root, files, args, cwd, times=(1,)):
     run.case(cid, (key + (len(want) > 0,)) if consistent and gens else None, sample={"case": cid, "exit": code, "lines": sum(want.values())})
     inp = {"args": args, "cwd": cwd, "history": h or "."}
     if exc is not None:
-        run.violation(cid, f"info {args} raises {exc!r}", "sf/exception", inp=inp)
+        run.violation(cid, f"info {args} raises {exc!r}", wc + "/exception", inp=inp)
         return
     if not gens:
         return
@@ -323,12 +323,12 @@ def check_sf(run, cid, key, root, files, args, cwd, times=(1,)):
         return
     head, got, bad = parse_sf(out)
     if code != 0 and want:
-        run.violation(cid, f"info {args} exits {code} for a recorded file: {out[-300:]!r}", "sf/exit", inp=inp)
+        run.violation(cid, f"info {args} exits {code} for a recorded file: {out[-300:]!r}", wc + "/exit", inp=inp)
         return
     if bad:
-        run.violation(cid, f"digest line not of the form 'Generation N (date) format: digest (action)': {bad[0]!r}", "sf/line-form", inp=inp)
+        run.violation(cid, f"digest line not of the form 'Generation N (date) format: digest (action)': {bad[0]!r}", wc + "/line-form", inp=inp)
     if head is not None and code == 0 and not same_path(head, hroot):
-        run.violation(cid, f"reports from the history at {head!r}, the nearest enclosing history of {files[0]!r} is {hroot!r}", "sf/history", inp=inp)
+        run.violation(cid, f"reports from the history at {head!r}, the nearest enclosing history of {files[0]!r} is {hroot!r}", wc + "/history", inp=inp)
     ok = False
     for k in times:
         wk = collections.Counter({x: c * k for x, c in want.items()})
@@ -339,12 +339,12 @@ def check_sf(run, cid, key, root, files, args, cwd, times=(1,)):
         k = times[0]
         wk = collections.Counter({x: c * k for x, c in want.items()})
         miss, extra = sorted((wk - got).elements()), sorted((got - wk).elements())
-        wc = "sf/missing-line" if miss and not extra else ("sf/extra-line" if extra and not miss else "sf/wrong-line")
+        wcl = wc + ("/missing-line" if miss and not extra else ("/extra-line" if extra and not miss else "/wrong-line"))
         run.violation(
             cid,
             f"{files}: {sum(got.values())} digest lines, {sum(wk.values())} digests recorded in history {h or '.'}; "
             f"recorded but not shown: {miss[:4]}; shown but not recorded: {extra[:4]}",
-            wc,
+            wcl,
             inp=inp,
         )
 
@@ -398,6 +398,8 @@ def scripts(spec, nested, tier, fsets):
             C("", ["md5"]),
             ("W", "added/new file.bin", "n"),
             ("W", "later.txt", "l"),
+            # a file of the same name elsewhere that is recorded in later generations only
+            ("W", os.path.basename(f0) if os.path.dirname(f0) else "sub dir/" + f0, "same name elsewhere"),
             C("", ["md5"]),
             ("RM", fl),
             C("", ["c4"]),
@@ -738,6 +740,25 @@ def nohistory_part(run, clock):
         cid = f"nohistory/{name}"
         if run.want(cid):
             check_nohistory(run, cid, ("nohistory", name), args, None, "nohistory-" + name.split("/")[0])
+    # a regular file that is merely called ascmhl does not make its folder a history: the files next to it belong to
+    # the history of the root, and the folder itself has none
+    root4 = os.path.join(base, "regular")
+    W.build(root4, {"sub/ascmhl": "a regular file", "sub/s.txt": "s", "sub/deeper/d.txt": "d", "top.txt": "t"})
+    clock.tick()
+    W.run("create", [root4, "-h", "md5"])
+    clock.tick()
+    W.run("create", [root4, "-h", "c4"])
+    _GENS.clear()
+    for f in ("top.txt", "sub/s.txt", "sub/deeper/d.txt"):
+        cid = f"lookalike/ascmhl-regular-file/sf/{f}"
+        if run.want(cid):
+            check_sf(run, cid, ("lookalike", f), root4, [f], ["-sf", os.path.join(root4, f)], None, wc="sf-ascmhl-regular-file")
+    cid = "lookalike/ascmhl-regular-file/folder/."
+    if run.want(cid):
+        check_folder(run, cid, ("lookalike", "."), root4, [root4], None)
+    cid = "lookalike/ascmhl-regular-file/folder/sub"
+    if run.want(cid):
+        check_nohistory(run, cid, ("lookalike", "sub"), [os.path.join(root4, "sub")], None, "nohistory-folder-ascmhl-regular-file")
     # a tree that never had one
     root3 = os.path.join(base, "never")
     W.build(root3, TREES["deep"])
@@ -818,7 +839,7 @@ def main():
                     set_tz(ORIG_TZ)
                     shutil.rmtree(tmp, ignore_errors=True)
         set_tz(ORIG_TZ)
-        if run.only is None or run.only.startswith("nohistory/"):
+        if run.only is None or run.only.startswith(("nohistory/", "lookalike/")):
             nohistory_part(run, clock)
         if run.only is None or run.only.startswith("crash/"):
             crash_part(run, clock, run.tier)
